@@ -2,6 +2,7 @@ package main
 
 import (
 	"fmt"
+	"math"
 	"sort"
 	"strings"
 	"time"
@@ -444,6 +445,21 @@ func runC09(c *Ctx) {
 		}
 		one(ops)
 		c.count("random")
+	}
+	// times over the whole range of the field, with encode/decode steps in between: what is stored is the integer
+	wide := []int64{1<<53 + 1, 1<<53 - 1, 1 << 53, 1<<62 + 12345, math.MaxInt64, math.MaxInt64 - 1, 1000000000000000007, 1<<31 + 1, 1 << 32,
+		time.Now().Unix(), 4102444800, 253402300799, 253402300800, 999999999999999999}
+	for i := 0; i < len(wide)*6; i++ {
+		var ops []rop
+		for j := 0; j < 2+c.Rng.Intn(4); j++ {
+			ops = append(ops, rop{Kind: "revoke", Key: keys[c.Rng.Intn(3)], T: wide[(i+j*5)%len(wide)]})
+			if c.Rng.Intn(2) == 0 {
+				ops = append(ops, rop{Kind: "codec"})
+			}
+		}
+		ops = append(ops, rop{Kind: "codec"})
+		one(ops)
+		c.count("wide_times")
 	}
 	// the "as of now" entry points (AccountClaims.Revoke, Export.Revoke) are revoke-at with the clock's second:
 	// with stored times in the past AND in the future they must follow the same rule (a later stored time stays)
